@@ -32,6 +32,7 @@ import Proofs.FitInv
 import Proofs.FitInStep
 import Proofs.FitCoherent
 import Proofs.FitValid
+import Proofs.FitPayload
 import Proofs.JoinSuccess
 import Proofs.Placement
 import Props.C01
@@ -1267,6 +1268,70 @@ theorem deleteRange_emits_valid_payload (S : Schema) (hdet : detB S = true) (hle
   split at h
   · simp [throw, throwThe, MonadExceptOf.throw] at h
   · exact delete_emits_valid_payload S hdet hleaf doc _ _ hv hattrs st h
+
+/-- **`insertInline_emits_valid_payload`** — the payload of every step `replace_step` emits for a closed slice of
+    valid leaf / text nodes (typing, `insert`, `replace_with` of inline content: `Slice.inlineLeaves`, content
+    `Node.check`-valid) on a valid document is valid in the sense of C01 (`openValid`).  Here the loop of `fit`
+    does place nodes, possibly inside wrapper nodes pass 2 of `find_fittable` opens; the invariant
+    (`VInv`, Proofs/FitPayload.lean) next to `FitLoopInv`: below a ghost level `g`, `placed` is the chain of the
+    document's nodes; from `g` on every level has valid closed children, an open last child with canonical
+    marks, and — for levels the Fitter opened — children whose marks the level's type allows
+    (`place_nodes` filters with `allowed_marks`, `checkNode_withMarks_allowed`) and a match that is the state
+    of the type's automaton after all of them, so that `close_frontier_node`'s `fill_before(…, True)` completes
+    the node to valid content.  One more decidable hypothesis on the schema, `Schema.closableB`
+    (PM/FitGuards.lean): that filling is never `None` (the code skips it silently when it is — the closed
+    wrapper would then stay short of a valid end; also upstream).  With `insertInline_emits_wf` and
+    `insertInline_total`: typing / inserting leaves always hands `Step.apply` a well-formed valid payload. -/
+theorem insertInline_emits_valid_payload (S : Schema) (hdet : detB S = true) (hfill : S.fillersOKB = true)
+    (hwrap : S.wrapOKB = true) (hlab : S.labelsOKB = true) (hleaf : PM.FromDom.leafOkB S = true)
+    (hts : textStableC S = true) (hcl : S.closableB = true) (doc : Node) (f t : Nat) (sl : Slice)
+    (hsl : sl.inlineLeaves S = true) (hslv : sl.closedValid S = true) (hv : C01.Valid S doc)
+    (hattrs : S.nodeAttrsOK doc = true) (st : Step) (h : replaceStep S doc f t sl = .ok (some st)) :
+    ∃ sl', st.sliceOf = some sl' ∧ openValid S sl'.openStart sl'.openEnd sl'.content = true :=
+  replaceStep_inline_valid S (detS_of_detB S hdet) (fillersOK_of_B S hfill) (wrapOK_of_B S hwrap) (labelsOK_of_B S hlab)
+    (PM.FromDom.leafOk_of_B S hleaf) (textStableP_of_C S hts) (closable_of_B S hcl) doc f t sl hsl hslv hv hattrs st h
+
+/-- the invariant behind it: one iteration of the loop on a closed slice of valid leaf nodes goes through and
+    keeps `FitLoopInv`, the validity invariant `VInv` (for some ghost level) and the validity of what is unplaced -/
+theorem payloadInv_step (S : Schema) (hdet : detB S = true) (hfill : S.fillersOKB = true)
+    (hwrap : S.wrapOKB = true) (hlab : S.labelsOKB = true) (hleaf : PM.FromDom.leafOkB S = true)
+    (hts : textStableC S = true) (hcl : S.closableB = true) (D g : Nat) (st : FitState)
+    (inv : FitLoopInv S D st) (hv : VInv S D g st.frontier st.placed)
+    (hu : ∀ n ∈ st.unplaced.content, S.checkNode n = true) :
+    ∃ st' g', fitStep S st = .ok st' ∧ FitLoopInv S D st' ∧ VInv S D g' st'.frontier st'.placed ∧
+      (∀ n ∈ st'.unplaced.content, S.checkNode n = true) :=
+  fitStep_ok_vinv S (detS_of_detB S hdet) (fillersOK_of_B S hfill) (wrapOK_of_B S hwrap) (labelsOK_of_B S hlab)
+    (PM.FromDom.leafOk_of_B S hleaf) (textStableP_of_C S hts) (closable_of_B S hcl) D g st inv hv hu
+
+/-- where `close` continues from lies at least as deep as the close level (`find_close_level`'s `move`):
+    the position after a node whose end the target is tight against resolves at that node's parent -/
+theorem closeLevel_move_depth (S : Schema) (doc : Node) (t : Nat) (rt : RPos) (ht : doc.resolve t = some rt)
+    (fr : List FItem) (lv : CloseLevel) (h : findCloseLevel S doc rt fr = .ok (some lv)) :
+    lv.depth ≤ lv.move.depth :=
+  findCloseLevelLoop_move_depth S ht fr (min (fr.length - 1) rt.depth + 1) lv (by omega) h
+
+/-- the hypotheses are satisfiable on a run that opens a wrapper and closes it again: typing `"x"` between the
+    two paragraphs of `doc(p("ab"), p("cd"))` emits `<p("x")>` closed on both sides, a valid payload -/
+example :
+    let nt (name : String) (isText inl : Bool) (dfa : Array DfaState) : NodeType :=
+      { name := name, isText := isText, isInline := isText, isLeaf := isText, isAtom := isText,
+        inlineContent := inl, isolating := false, defining := false, code := false,
+        dfa := dfa, markSet := none, attrs := [] }
+    let S : Schema := { nodes := #[nt "doc" false false #[⟨false, [(1, 1)]⟩, ⟨true, [(1, 1)]⟩],
+                                   nt "paragraph" false true #[⟨true, [(2, 0)]⟩],
+                                   nt "text" true false #[⟨true, []⟩]],
+                        marks := #[], top := 0, textTy := 2 }
+    let doc := Node.elem 0 [] [] [.elem 1 [] [] [.text [97, 98] []], .elem 1 [] [] [.text [99, 100] []]]
+    let sl : Slice := ⟨[.text [120] []], 0, 0⟩
+    detB S = true ∧ S.fillersOKB = true ∧ S.wrapOKB = true ∧ S.labelsOKB = true ∧ PM.FromDom.leafOkB S = true ∧
+    textStableC S = true ∧ S.closableB = true ∧ sl.inlineLeaves S = true ∧ sl.closedValid S = true ∧
+    S.checkNode doc = true ∧ S.nodeAttrsOK doc = true ∧
+    (match replaceStep S doc 4 4 sl with
+     | .ok (some (.replace 4 4 sl' _)) =>
+       sl' == ⟨[.elem 1 [] [] [.text [120] []]], 0, 0⟩
+     | _ => false) = true ∧
+    -- `openValid S 0 0` of that slice
+    S.checkKids [.elem 1 [] [] [.text [120] []]] = true := by decide +kernel
 
 /-- **`coherent_invariant`** — the key invariant `FitState.coherentB` (with the ghost level) is an invariant
     of the loop of `fit` (Proofs/FitCoherent.lean, `Coh` = the proposition behind the Boolean):
